@@ -1,9 +1,11 @@
 package main
 
 import (
+	"bytes"
 	"encoding/hex"
 	"errors"
 	"fmt"
+	"sort"
 	"strings"
 	"sync"
 
@@ -159,7 +161,7 @@ func (s *poolSeq) observe(op string) (string, []*nom.AccountBlock) {
 			pooled[b.Identifier()] = true
 		}
 	}
-	for id := range s.seen {
+	for _, id := range sortedIds(s.seen) {
 		var p db.Patch
 		if pn := safely(func() { p = s.pool.GetPatch(s.addr, id) }); pn != "" {
 			s.c.Fail("pool after %s: GetPatch(%d:%s) panics", op, id.Height, s8(id.Hash))
@@ -373,6 +375,21 @@ func init() {
 			}
 		}
 	})
+}
+
+// sortedIds: by height, then hash (deterministic reports)
+func sortedIds(m map[types.HashHeight]bool) []types.HashHeight {
+	out := make([]types.HashHeight, 0, len(m))
+	for id := range m {
+		out = append(out, id)
+	}
+	sort.Slice(out, func(i, j int) bool {
+		if out[i].Height != out[j].Height {
+			return out[i].Height < out[j].Height
+		}
+		return bytes.Compare(out[i].Hash[:], out[j].Hash[:]) < 0
+	})
+	return out
 }
 
 func minInt(a, b int) int {
